@@ -45,12 +45,17 @@ def recipes(t, size_cap=4, rnd=None):
         for c in COSTS[:4]:
             yield {"cost": _enc(c)}
     elif k == "list" and t[1] == ("obj", "Agent"):
-        for n in range(0, size_cap + 1):
+        yield {"costs": []}
+        # a few populations with NaN fitness (an objective that returned NaN): outside the symbolic domain, inside the
+        # property's (the mean of such a generation is NaN)
+        for costs, nanfit in (([1.0], [0]), ([0.0, 1.0], [0]), ([0.0, 1.0], [1]), ([1.0, 1.0], [0, 1]), ([2.5, 0.0, 1.0], [1])):
+            yield {"costs": costs, "nanfit": nanfit}
+        for n in range(1, size_cap + 1):
             alphabet = COSTS if n <= 3 else COSTS[:3]
             for costs in itertools.product(alphabet, repeat=n):
                 yield {"costs": [_enc(c) for c in costs]}
     elif k == "list" and t[1] == ("list", ("obj", "Agent")):
-        inner = [r for r in recipes(("list", ("obj", "Agent")), 2) if 1 <= len(r["costs"]) <= 2][:30]
+        inner = [r for r in recipes(("list", ("obj", "Agent")), 2) if 1 <= len(r["costs"]) <= 2 and not r.get("nanfit")][:30]
         for n in range(0, 3):
             for combo in itertools.product(inner[:8], repeat=n):
                 yield {"groups": list(combo)}
@@ -78,7 +83,8 @@ def build(t, r):
     if k == "obj" and t[1] == "Agent":
         return Agent(position=[0.0], cost=_dec(r["cost"]), fitness=0.5)
     if k == "list" and t[1] == ("obj", "Agent"):
-        return [Agent(position=[float(i)], cost=_dec(c), fitness=1.0 / (2 + i)) for i, c in enumerate(r["costs"])]
+        return [Agent(position=[float(i)], cost=_dec(c), fitness=float("nan") if i in r.get("nanfit", ()) else 1.0 / (2 + i))
+                for i, c in enumerate(r["costs"])]
     if k == "list" and t[1] == ("list", ("obj", "Agent")):
         return [build(("list", ("obj", "Agent")), g) for g in r["groups"]]
     if k == "list":
